@@ -350,6 +350,9 @@ class Interp:
     def ev_IfExp(self, node, env):
         if self.spec_mode:
             c = self.truth(self.ev(node.test, env), node)
+            cb = c if isinstance(c, bool) else concrete_bool(c)
+            if cb is not None:
+                return self.ev(node.body if cb else node.orelse, env)
             a, b = self.ev(node.body, env), self.ev(node.orelse, env)
             return self.v_ite(c, a, b, node)
         if self.test(self.ev(node.test, env), node):
@@ -613,6 +616,7 @@ class Interp:
                 return to_int(a) == to_int(b)
             return to_real(a) == to_real(b)
         if isinstance(a, VStr) and isinstance(b, VStr):
+            self.join_lemma(a.term, b.term)
             return a.term == b.term
         if isinstance(a, VType) and isinstance(b, VType):
             return z3.BoolVal(a.name == b.name)
@@ -625,6 +629,9 @@ class Interp:
         if isinstance(a, VObj) and isinstance(b, VObj):
             if a.term is not None and b.term is not None:
                 return a.term == b.term
+            r = self.externs._run("eq", self, a, b, node)
+            if r is not None:
+                return r
             return z3.BoolVal(a is b)
         if isinstance(a, VList) and isinstance(b, VList):
             return self.seq_eq(a, b, node)
@@ -637,6 +644,27 @@ class Interp:
         if isinstance(a, (VFunc, VType)) or isinstance(b, (VFunc, VType)):
             return z3.BoolVal(False)
         self.unsupported(node, f"== between {a!r} and {b!r}")
+
+    def join_lemma(self, ta, tb):
+        """L-join (Lean): sep.join is injective on rows of equal width whose cells do not contain the
+        (non-empty) separator.  Added as a ground instance whenever two join terms are compared."""
+        jt = getattr(self.ctx, "join_terms", None)
+        if not jt:
+            return
+        ja, jb = jt.get(ta.get_id()), jt.get(tb.get_id())
+        if ja is None or jb is None or ta.get_id() == tb.get_id():
+            return
+        sa, ca, _ = ja
+        sb, cb, _ = jb
+        if len(ca) != len(cb) or not z3.eq(sa, sb):
+            return
+        key = ("joinlemma", min(ta.get_id(), tb.get_id()), max(ta.get_id(), tb.get_id()))
+        if key in self.ctx.axioms_added:
+            return
+        self.ctx.axioms_added.add(key)
+        clean = z3.And(z3.Length(sa) > 0, *[z3.Not(z3.Contains(c, sa)) for c in ca + cb])
+        self.ctx.assume(z3.Implies(clean, (ta == tb) == z3.And(*[x == y for x, y in zip(ca, cb)])),
+                        "lemma:L-join (Lean) sep.join is injective on equal-width rows whose cells do not contain sep")
 
     def seq_eq(self, a, b, node=None):
         ca, cb = a.content, b.content
@@ -882,6 +910,10 @@ class Interp:
                     and dotted not in self.externs.EXTERNS:
                 return VModule(dotted)
             return self.extern_value(dotted)
+        if not isinstance(base, VObj):
+            r = self.externs.getattr_hook(self, base, attr, node)
+            if r is not None:
+                return r
         if isinstance(base, VObj):
             if attr in base.attrs:
                 return base.attrs[attr]
